@@ -142,12 +142,18 @@ def real_bytes(f, exc):
                        f.stream_id & 0x7FFFFFFF) + body
 
 
+ALL_KINDS = ['DATA', 'DATA_END', 'DATAP', 'HEADERS', 'TRAILERS', 'WU', 'WU0', 'PING', 'RST',
+             'PRIORITY', 'GOAWAY', 'SETTINGS', 'UNKNOWN', 'ALTSVC', 'ACK', 'BIGDATA']
+
+
 def make(kinds, with_parse_errors):
     def h():
         with h2h.native():
             a = _endpoint()
             b = _endpoint()
-        fa = _build(a, kinds)
+        ks = [sym_choice('kind_%d' % i, ALL_KINDS) if k == '*' else k
+              for i, k in enumerate(kinds)]
+        fa = _build(a, ks)
         fb = [clone_frame(f) for f in fa]
         excs = []
         for f in fa:
@@ -292,6 +298,10 @@ def shards(tier, seed):
         out.append(Shard('inbound/%s' % '+'.join(ks), make(ks, False), budget=200))
     for ks in (pairs[:4] if tier == 'quick' else pairs):
         out.append(Shard('inbound_parse_errors/%s' % '+'.join(ks), make(ks, True), budget=240))
+    if tier == 'thorough':
+        # every ordered pair of frame kinds: first kind per shard, second chosen by the solver
+        for k1 in ALL_KINDS:
+            out.append(Shard('inbound_any/%s+*' % k1, make((k1, '*'), False), budget=400))
     out.append(Shard('server_preface', h_preface(), budget=120))
     out.append(Shard('data_to_send', h_data_to_send(), budget=200, expect=['read']))
     return out
